@@ -20,6 +20,34 @@ sys.path.insert(0, os.path.join(VERIF, "tools"))
 import mutation_sweep as MS    # noqa: E402
 
 
+def enumerate_block_mutants(repo, only=None):
+    """Operator set 4: a guard dropped - an `if .. { .. }` block without `else` (at most six lines) removed as a whole, and an
+    `else` branch emptied."""
+    import re
+    muts = []
+    for rel in MS.source_files(repo):
+        if only and only not in rel:
+            continue
+        lines = open(os.path.join(repo, rel)).read().split("\n")
+        in_tests = False
+        for i, line in enumerate(lines):
+            if re.match(r"\s*#\[cfg\(test\)\]", line) or re.match(r"\s*mod tests\b", line):
+                in_tests = True
+            if in_tests:
+                continue
+            m = re.match(r"^(\s*)if .*\{\s*$", line)
+            if not m or line.strip().startswith("} else"):
+                continue
+            ind = m.group(1)
+            for j in range(i + 1, min(i + 7, len(lines))):
+                if lines[j] == ind + "}":
+                    muts.append({"file": rel, "line": i + 1, "op": "if-block removed", "occ": 0, "orig": line, "new": None, "span": [i, j]})
+                    break
+                if lines[j].startswith(ind + "}"):
+                    break
+    return muts
+
+
 def worker(args):
     wid, muts, out_path = args
     import tempfile
@@ -36,7 +64,11 @@ def worker(args):
             lines = orig.split("\n")
             if lines[mu["line"] - 1] != mu["orig"]:
                 continue
-            lines[mu["line"] - 1] = mu["new"]
+            if mu.get("span"):
+                a_, b_ = mu["span"]
+                lines[a_:b_ + 1] = []
+            else:
+                lines[mu["line"] - 1] = mu["new"]
             open(p, "w").write("\n".join(lines))
             rec = dict(mu)
             fired = {}
@@ -71,10 +103,12 @@ def main():
     for k, ops in (("1", MS.OPS), ("2", MS.OPS2), ("3", MS.OPS3)):
         if k in a.ops:
             muts += MS.enumerate_mutants("/repo", a.only, ops)
+    if "4" in a.ops:
+        muts += enumerate_block_mutants("/repo", a.only)
     seen = set()
     uniq = []
     for m in muts:
-        k = (m["file"], m["line"], m["new"])
+        k = (m["file"], m["line"], m["new"], str(m.get("span")))
         if k not in seen and m["new"] != m["orig"]:
             seen.add(k)
             uniq.append(m)
@@ -88,7 +122,7 @@ def main():
     silent = [r for r in comp if not r["fired"]]
     print("%d mutants, %d compile, %d reported by at least one check, %d by none" % (len(recs), len(comp), len(comp) - len(silent), len(silent)))
     for r in sorted(silent, key=lambda r: (r["file"], r["line"])):
-        print("  %s:%d  %s   =>   %s" % (r["file"], r["line"], r["orig"].strip()[:70], r["new"].strip()[:70]))
+        print("  %s:%d  %s   =>   %s" % (r["file"], r["line"], r["orig"].strip()[:70], (r["new"] or "<block removed>").strip()[:70]))
 
 
 if __name__ == "__main__":
